@@ -738,8 +738,8 @@ Proof.
   unfold udp_calculateChecksum, checksum_chunks. cbn [fold_left].
   assert (G : getN (hdr_bytes lp rp L 0) 0 8 = Some (hdr_bytes lp rp L 0)) by reflexivity.
   rewrite G. cbn [obind].
-  fold (udp_xsum (r_local r) (r_remote r) v lp rp L).
-  generalize (lnot16 (udp_xsum (r_local r) (r_remote r) v lp rp L)). intros c.
+  unfold udp_xsum.
+  match goal with |- context [lnot16 ?X] => generalize (lnot16 X) end. intros c.
   assert (S : udp_setChecksum (hdr_bytes lp rp L 0) c = Some (hdr_bytes lp rp L c)) by reflexivity.
   rewrite S. reflexivity.
 Qed.
@@ -781,22 +781,23 @@ Proof.
   intros (Bs & Es & Ls) (Bd & Ed & Ld) Bv Lv Hlp Hrp HL.
   pose proof (W_nonneg src Bs) as Ns. pose proof (W_nonneg dst Bd) as Nd. pose proof (W_nonneg v Bv) as Nv.
   unfold udp_xsum, pseudoHeaderChecksum, UDPProtocolNumber.
-  rewrite <- oc_norm_0 at 1.
+  change (checksum src 0) with (checksum src (oc_norm 0)).
   rewrite (checksum_step src 0) by (try assumption; unfold len; lia).
   rewrite (checksum_step dst) by (try assumption; unfold len; lia).
   assert (B17 : bytes_ok [0; w8 17]) by (repeat constructor; try apply w8_byte; unfold is_byte; lia).
   rewrite (checksum_step [0; w8 17]) by (try assumption; unfold len; cbn [length]; lia).
-  rewrite (checksum_step v) by (try assumption; unfold W; cbn [be_words zsum fold_right]; try lia).
+  assert (W17 : W [0; w8 17] = 17) by reflexivity.
+  assert (WL : W [w8 (L / 2^8); w8 L] = L).
+  { unfold W. cbn [be_words zsum fold_right]. unfold is_u16 in HL. rewrite be16_rt by assumption. lia. }
+  rewrite W17.
+  rewrite (checksum_step v) by (try assumption; lia).
   assert (BL : bytes_ok [w8 (L / 2^8); w8 L]) by (repeat constructor; apply w8_byte).
-  rewrite (checksum_step [w8 (L / 2^8); w8 L]);
-    [|exact BL|unfold W; cbn [be_words zsum fold_right]; lia|unfold len; cbn [length]; lia].
+  rewrite (checksum_step [w8 (L / 2^8); w8 L]); [|exact BL|lia|unfold len; cbn [length]; lia].
+  rewrite WL.
   rewrite (checksum_step (hdr_bytes lp rp L 0));
-    [|apply hdr_bytes_ok| |unfold len; cbn [length]; lia].
-  - rewrite W_hdr by (try assumption; unfold is_u16; lia).
-    f_equal. unfold W. cbn [be_words zsum fold_right]. unfold is_u16 in HL. rewrite be16_rt by assumption.
-    change (w8 17) with 17. lia.
-  - unfold W. cbn [be_words zsum fold_right]. unfold is_u16 in HL. rewrite be16_rt by assumption.
-    change (w8 17) with 17. lia.
+    [|apply hdr_bytes_ok|unfold is_u16 in *; lia|unfold len, hdr_bytes; cbn [length]; lia].
+  rewrite W_hdr by (try assumption; unfold is_u16; lia).
+  f_equal. lia.
 Qed.
 
 Lemma rfc_sum_closed buf : bytes_ok buf -> rfc1071_sum buf 0 = oc_norm (W buf).
@@ -842,13 +843,13 @@ Proof.
       rewrite (W_app_even [0; 17; L / 256; L mod 256]) by reflexivity. rewrite Wseg.
       unfold W at 3. cbn [be_words zsum fold_right]. rewrite <- Fin. f_equal. unfold T. lia.
     + apply Forall_app; split; [exact Bs|]. apply Forall_app; split; [exact Bd|].
-      apply Forall_app; split; [|exact Bseg]. destruct BL. repeat constructor; try assumption; unfold is_byte; lia.
+      apply Forall_app; split; [|exact Bseg]. destruct BL. repeat (apply Forall_cons; [unfold is_byte in *; lia|]). apply Forall_nil.
   - unfold pseudo6. rewrite Lseg. rewrite rfc_sum_closed.
     + rewrite W_app_even by exact Es. rewrite W_app_even by exact Ed.
       rewrite (W_app_even [0; 0; L / 256; L mod 256; 0; 0; 0; 17]) by reflexivity. rewrite Wseg.
       unfold W at 3. cbn [be_words zsum fold_right]. rewrite <- Fin. f_equal. unfold T. lia.
     + apply Forall_app; split; [exact Bs|]. apply Forall_app; split; [exact Bd|].
-      apply Forall_app; split; [|exact Bseg]. destruct BL. repeat constructor; try assumption; unfold is_byte; lia.
+      apply Forall_app; split; [|exact Bseg]. destruct BL. repeat (apply Forall_cons; [unfold is_byte in *; lia|]). apply Forall_nil.
 Qed.
 
 Lemma hdr_fields lp rp L c v : is_u16 lp -> is_u16 rp -> is_u16 L -> is_u16 c ->
@@ -856,8 +857,8 @@ Lemma hdr_fields lp rp L c v : is_u16 lp -> is_u16 rp -> is_u16 L -> is_u16 c ->
   f_sport seg = lp /\ f_dport seg = rp /\ f_length seg = L /\ f_checksum seg = c /\ skipn 8 seg = v /\
   firstn 8 seg = hdr_bytes lp rp L c.
 Proof.
-  unfold is_u16. intros Hl Hr HL Hc seg. unfold seg, f_sport, f_dport, f_length, f_checksum, hdr_bytes.
-  cbn [app nth skipn firstn]. rewrite !be16_rt by assumption. auto.
+  unfold is_u16. intros Hl Hr HL Hc. cbv zeta. unfold f_sport, f_dport, f_length, f_checksum, hdr_bytes.
+  cbn [app nth skipn firstn]. rewrite !be16_rt by assumption. repeat split; reflexivity.
 Qed.
 
 (* ---- Write ---- *)
@@ -871,9 +872,12 @@ Definition route_used (e : endpoint) (to : option Z) (env : writeEnv) : option (
   | Some port => match we_route env with inr r => Some (r, port) | inl _ => None end
   end.
 
+(* well-formed inputs: ports are 16-bit, addresses are even-length byte strings, an error answer
+   of an oracle is a non-nil error *)
 Definition wf_write (e : endpoint) (to : option Z) (env : writeEnv) : Prop :=
   is_u16 (localPort e) /\ (forall p, we_bind env = inr p -> is_u16 p) /\
-  (forall r p, route_used e to env = Some (r, p) -> wf_route r /\ is_u16 p).
+  (forall r p, route_used e to env = Some (r, p) -> wf_route r /\ is_u16 p) /\
+  (forall err, we_route env = inl err -> err <> 0).
 
 (* what a Write that emits looks like *)
 Definition one_packet (lport : Z) (r : route) (dport : Z) (v : list Z) (sg : segment) : Prop :=
@@ -906,24 +910,17 @@ Proof.
     pose proof (oc_norm_u16 _ NT). unfold lnot16, is_u16 in *. lia. }
   destruct (hdr_fields lp rp L c v Hlp Hrp HL Hc) as (F1 & F2 & F3 & F4 & F5 & F6).
   unfold one_packet. cbn [sg_netProto sg_src sg_dst sg_bytes].
-  repeat split; try assumption.
-  - rewrite app_length. reflexivity.
-  - intros Hoff. unfold c. rewrite Hoff. apply (segment_checksum_verifies _ _ v lp rp Hl Hr Bv Lv Hlp Hrp).
-  - intros Hoff. unfold c. rewrite Hoff. apply (segment_checksum_verifies _ _ v lp rp Hl Hr Bv Lv Hlp Hrp).
+  split; [reflexivity|]. split; [reflexivity|]. split; [reflexivity|].
+  split; [rewrite app_length; reflexivity|]. split; [exact F1|]. split; [exact F2|].
+  split; [exact F3|]. split; [exact F5|].
+  intros Hoff. unfold c. rewrite Hoff. apply (segment_checksum_verifies _ _ v lp rp Hl Hr Bv Lv Hlp Hrp).
 Qed.
 
 Lemma maxPayload_le p : maxPayload p <= 65527.
 Proof. unfold maxPayload, UDPMinimumSize, IPv4MinimumSize. destruct (p =? IPv4ProtocolNumber); lia. Qed.
 
-(* udp_write_one_packet: whatever the state and the answers of the rest of the stack, Write never
-   panics and either hands NOTHING to the network layer and returns an error with count 0, or hands
-   over exactly ONE segment: ports = the socket's local port and the destination's port, length field
-   8 + n, payload = the written bytes, n at most the maximum for the route's protocol, checksum
-   verifying; it then returns n (or, if the lower layers failed, their error with count 0). *)
-Lemma write_one_packet e more to env v :
-  bytes_ok v -> wf_write (fst (write e more to env v)) to env ->
-  let r := snd (write e more to env v) in
-  let e' := fst (write e more to env v) in
+(* postcondition of one Write *)
+Definition write_post (e' : endpoint) (to : option Z) (env : writeEnv) (v : list Z) (r : writeResult) : Prop :=
   w_panic r = false /\
   ((w_emitted r = [] /\ w_n r = 0 /\ w_err r <> 0) \/
    (exists sg rt dport,
@@ -931,16 +928,209 @@ Lemma write_one_packet e more to env v :
       len v <= maxPayload (r_netProto rt) /\
       one_packet (localPort e') rt dport v sg /\
       ((w_err r = 0 /\ w_n r = len v) \/ (w_err r <> 0 /\ w_n r = 0 /\ w_err r = we_lower env)))).
+
+Lemma werr_post e' to env v err : err <> 0 -> write_post e' to env v (werr err).
+Proof. intros H. split; [reflexivity|left]. cbn. auto. Qed.
+
+Lemma prepare_props e has_to env :
+  is_u16 (localPort e) -> (forall p, we_bind env = inr p -> is_u16 p) ->
+  let e1 := fst (prepareForWrite e has_to env) in
+  eroute e1 = eroute e /\ dstPort e1 = dstPort e /\ is_u16 (localPort e1).
 Proof.
-  intros Bv. unfold write, write_gen. cbv zeta.
-  destruct more; [intros _; cbn; split; [reflexivity|left; repeat split; discriminate]|].
-  destruct (65535 <? len v); [intros _; cbn; split; [reflexivity|left; repeat split; discriminate]|].
-  destruct (shutWrite e); [intros _; cbn; split; [reflexivity|left; repeat split; discriminate]|].
-  destruct (prepareForWrite e _ env) as [e1 err].
-  destruct (Z.eqb_spec err 0) as [E0|E0]; cbn [negb];
-    [|intros _; cbn; split; [reflexivity|left; repeat split; assumption]].
-  unfold route_used.
+  intros Hl Hb. unfold prepareForWrite, bindLocked.
+  destruct (state e); cbn [fst]; auto.
+  destruct (we_bind env) as [berr|port] eqn:Hbe.
+  - destruct (berr =? 0); cbn [fst]; auto.
+  - cbn [ErrNil Z.eqb fst eroute dstPort localPort]. auto.
+Qed.
+
+(* udp_write_one_packet: whatever the state and the answers of the rest of the stack, Write never
+   panics and either hands NOTHING to the network layer and returns an error with count 0, or hands
+   over exactly ONE segment: ports = the socket's local port and the destination's port, length field
+   8 + n, payload = the written bytes, n at most the maximum for the route's protocol, checksum
+   verifying; it then returns n (or, if the lower layers failed, their error with count 0). *)
+Lemma write_one_packet e more to env v :
+  bytes_ok v -> wf_write e to env ->
+  write_post (fst (write e more to env v)) to env v (snd (write e more to env v)).
+Proof.
+  intros Bv (Hlp & Hbind & Hroute & Hrerr). unfold write, write_gen.
+  destruct more; [apply werr_post; discriminate|].
+  destruct (Z.ltb_spec 65535 (len v)) as [A|A]; [apply werr_post; discriminate|].
+  destruct (shutWrite e); [apply werr_post; discriminate|].
+  pose proof (prepare_props e (match to with Some _ => true | None => false end) env Hlp Hbind) as Hp.
+  destruct (prepareForWrite e _ env) as [e1 err]. cbn [fst] in Hp. destruct Hp as (Pr & Pd & Pl).
+  destruct (Z.eqb_spec err 0) as [E0|E0]; cbn [negb]; [|apply werr_post; exact E0].
+  assert (RU : route_used e1 to env = route_used e to env).
+  { unfold route_used. rewrite Pr, Pd. reflexivity. }
+  assert (K : forall rt dport, route_used e to env = Some (rt, dport) ->
+    write_post e1 to env v
+      (snd (if negb (we_resolve env =? 0) then (e1, werr (we_resolve env))
+            else if true && (maxPayload (r_netProto rt) <? len v) then (e1, werr ErrMessageTooLong)
+            else match sendUDP rt v (localPort e1) dport
+                         (if isV4Multicast (r_remote rt) || isV6Multicast (r_remote rt)
+                          then multicastTTL e1 else r_defaultTTL rt) with
+                 | None => (e1, mkWR [] 0 0 true)
+                 | Some sg => if we_lower env =? 0 then (e1, mkWR [sg] (len v) ErrNil false)
+                              else (e1, mkWR [sg] 0 (we_lower env) false)
+                 end)) /\
+    fst (if negb (we_resolve env =? 0) then (e1, werr (we_resolve env))
+            else if true && (maxPayload (r_netProto rt) <? len v) then (e1, werr ErrMessageTooLong)
+            else match sendUDP rt v (localPort e1) dport
+                         (if isV4Multicast (r_remote rt) || isV6Multicast (r_remote rt)
+                          then multicastTTL e1 else r_defaultTTL rt) with
+                 | None => (e1, mkWR [] 0 0 true)
+                 | Some sg => if we_lower env =? 0 then (e1, mkWR [sg] (len v) ErrNil false)
+                              else (e1, mkWR [sg] 0 (we_lower env) false)
+                 end) = e1).
+  { intros rt dport Hru. destruct (Hroute rt dport Hru) as (Wr & Wp).
+    destruct (Z.eqb_spec (we_resolve env) 0) as [R0|R0]; cbn [negb fst snd];
+      [|split; [apply werr_post; exact R0|reflexivity]].
+    cbn [andb]. destruct (Z.ltb_spec (maxPayload (r_netProto rt)) (len v)) as [M|M]; cbn [fst snd];
+      [split; [apply werr_post; discriminate|reflexivity]|].
+    pose proof (maxPayload_le (r_netProto rt)) as ML.
+    destruct (sendUDP_one_packet rt v (localPort e1) dport
+                (if isV4Multicast (r_remote rt) || isV6Multicast (r_remote rt)
+                 then multicastTTL e1 else r_defaultTTL rt) Wr Bv ltac:(lia) Pl Wp) as (sg & Hs & Hone & _).
+    rewrite Hs.
+    destruct (Z.eqb_spec (we_lower env) 0) as [L0|L0]; cbn [fst snd]; (split; [|reflexivity]).
+    - split; [reflexivity|right]. exists sg, rt, dport. cbn [w_emitted w_err w_n].
+      rewrite RU. split; [reflexivity|]. split; [exact Hru|]. split; [exact M|]. split; [exact Hone|].
+      left. split; reflexivity.
+    - split; [reflexivity|right]. exists sg, rt, dport. cbn [w_emitted w_err w_n].
+      rewrite RU. split; [reflexivity|]. split; [exact Hru|]. split; [exact M|]. split; [exact Hone|].
+      right. split; [exact L0|]. split; reflexivity. }
   destruct to as [port|].
-  - destruct (we_route env) as [rerr|rt] eqn:Hrt.
-    + intros _. cbn [fst snd werr w_panic w_emitted w_n w_err]. split; [reflexivity|left].
-Abort.
+  - unfold route_used in K. destruct (we_route env) as [rerr|rt] eqn:Hrt.
+    + cbn [fst snd]. apply werr_post. apply Hrerr. reflexivity.
+    + destruct (K rt port eq_refl) as (K1 & K2). rewrite K2. exact K1.
+  - unfold route_used in K. destruct (K (eroute e) (dstPort e) eq_refl) as (K1 & K2).
+    rewrite Pr, Pd. rewrite K2. exact K1.
+Qed.
+
+(* when Write gets as far as sending: connected, or an explicit destination on a bound socket, or on a
+   fresh socket whose implicit bind succeeds *)
+Definition can_send (e : endpoint) (to : option Z) (env : writeEnv) : Prop :=
+  shutWrite e = false /\
+  (state e = stateConnected \/
+   (to <> None /\ (state e = stateBound \/ (state e = stateInitial /\ exists p, we_bind env = inr p)))).
+
+Lemma prepare_ok e to env :
+  can_send e to env -> snd (prepareForWrite e (match to with Some _ => true | None => false end) env) = 0.
+Proof.
+  intros (_ & [Hc|(Ht & [Hb|(Hi & p & Hp)])]); unfold prepareForWrite, bindLocked.
+  - rewrite Hc. reflexivity.
+  - rewrite Hb. destruct to; [reflexivity|contradiction].
+  - rewrite Hi, Hp. cbn. destruct to; [reflexivity|contradiction].
+Qed.
+
+(* the size limit is exact: up to the maximum one packet goes out, above it ErrMessageTooLong and
+   nothing is emitted *)
+Lemma write_size_limit e to env v rt dport :
+  bytes_ok v -> wf_write e to env -> can_send e to env ->
+  route_used e to env = Some (rt, dport) -> we_resolve env = 0 ->
+  let r := snd (write e false to env v) in
+  if len v <=? maxPayload (r_netProto rt)
+  then exists sg, w_emitted r = [sg] /\ skipn 8 (sg_bytes sg) = v /\ f_length (sg_bytes sg) = 8 + len v
+  else w_emitted r = [] /\ w_n r = 0 /\ w_err r = ErrMessageTooLong.
+Proof.
+  intros Bv Hwf Hcs Hru Hres. cbv zeta.
+  pose proof (write_one_packet e false to env v Bv Hwf) as Hpost.
+  pose proof (prepare_ok e to env Hcs) as Hprep.
+  destruct Hwf as (Hlp & Hbind & Hroute & Hrerr).
+  pose proof (prepare_props e (match to with Some _ => true | None => false end) env Hlp Hbind) as Hp.
+  pose proof (maxPayload_le (r_netProto rt)) as ML.
+  revert Hpost. unfold write, write_gen. destruct Hcs as (Hsw & _). rewrite Hsw.
+  destruct (Z.ltb_spec 65535 (len v)) as [A|A].
+  { intros _. replace (len v <=? maxPayload (r_netProto rt)) with false by lia. cbn. auto. }
+  destruct (prepareForWrite e _ env) as [e1 err]. cbn [fst snd] in *. subst err. cbn [Z.eqb negb].
+  destruct Hp as (Pr & Pd & Pl).
+  assert (RD : match to with
+               | Some port => match we_route env with inl err => inl err | inr r => inr (r, port) end
+               | None => inr (eroute e1, dstPort e1)
+               end = inr (rt, dport)).
+  { unfold route_used in Hru. destruct to as [port|].
+    - destruct (we_route env); [discriminate Hru|]. injection Hru as -> ->. reflexivity.
+    - injection Hru as <- <-. rewrite Pr, Pd. reflexivity. }
+  rewrite RD, Hres. cbn [Z.eqb negb andb].
+  destruct (Z.ltb_spec (maxPayload (r_netProto rt)) (len v)) as [M|M].
+  - intros _. replace (len v <=? maxPayload (r_netProto rt)) with false by lia. cbn. auto.
+  - replace (len v <=? maxPayload (r_netProto rt)) with true by lia.
+    intros (_ & [(Hem & _)|(sg & rt' & dport' & Hem & _ & _ & Hone & _)]).
+    + exfalso. revert Hem. destruct (sendUDP _ _ _ _ _) eqn:Hs.
+      * destruct (we_lower env =? 0); cbn; discriminate.
+      * destruct (Hroute rt dport Hru) as (Wr & Wp).
+        destruct (sendUDP_one_packet rt v (localPort e1) dport
+                    (if isV4Multicast (r_remote rt) || isV6Multicast (r_remote rt)
+                     then multicastTTL e1 else r_defaultTTL rt) Wr Bv ltac:(lia) Pl Wp) as (sg & Hs' & _).
+        rewrite Hs' in Hs. discriminate Hs.
+    + exists sg. split; [exact Hem|]. destruct Hone as (_ & _ & _ & _ & _ & _ & HL & HP & _). auto.
+Qed.
+
+(* after Shutdown(ShutdownWrite) or Close: the write is refused, nothing is emitted, nothing changes *)
+Lemma shutdown_write_refuses e to env v :
+  shutWrite e = true -> len v <= 65535 ->
+  write e false to env v = (e, mkWR [] 0 ErrClosedForSend false).
+Proof.
+  intros Hs Hl. unfold write, write_gen. replace (65535 <? len v) with false by lia. rewrite Hs. reflexivity.
+Qed.
+
+Lemma shutdown_write_effect e rd :
+  (state e = stateBound \/ state e = stateConnected) -> shutWrite (fst (shutdown e rd true)) = true.
+Proof. intros [H|H]; unfold shutdown; rewrite H; cbn; apply orb_true_r. Qed.
+
+Lemma close_refuses_both e : shutWrite (close e) = true /\ rcvClosed (close e) = true /\ rcvList (close e) = [].
+Proof. cbn. auto. Qed.
+
+(* ---- concrete runs: the hypotheses above are satisfiable, the success branch is reachable ---- *)
+Definition ex_route4 : route := mkRoute IPv4ProtocolNumber [10;0;0;1] [10;0;0;2] 255 false.
+Definition ex_env : writeEnv := mkWEnv (inr 40000) (inr ex_route4) 0 0.
+Definition ex_conn : endpoint := fst (connect (newEndpoint 32768) 53 (inr (ex_route4, 40000))).
+
+Example write_example :
+  wf_write ex_conn None ex_env /\ can_send ex_conn None ex_env /\
+  snd (write ex_conn false None ex_env [104; 105; 33]) =
+  mkWR [mkSeg IPv4ProtocolNumber [10;0;0;1] [10;0;0;2] 255
+          [156;64; 0;53; 0;11; 197;246; 104;105;33]] 3 0 false.
+Proof.
+  split; [|split].
+  - split; [unfold is_u16; cbn; lia|]. split; [intros p H; injection H as <-; unfold is_u16; lia|].
+    split.
+    + intros r p H. injection H as <- <-. split; [|unfold is_u16; cbn; lia].
+      split; (split; [apply bytes_okb_ok; reflexivity|split; [reflexivity|cbn; lia]]).
+    + intros err H. discriminate H.
+  - split; [reflexivity|left; reflexivity].
+  - vm_compute. reflexivity.
+Qed.
+
+(* ---- the behaviour before the repair of Write ---- *)
+(* without the bound, a 65530-byte write was accepted: one segment whose UDP length field says 2 *)
+Definition first_seg (r : writeResult) : segment := hd (mkSeg 0 [] [] 0 []) (w_emitted r).
+
+Lemma write_wrap_old_refuted :
+  exists v, bytes_ok v /\ len v = 65530 /\
+    let r := snd (write_old ex_conn false None ex_env v) in
+    w_err r = 0 /\ w_n r = 65530 /\ Z.of_nat (length (w_emitted r)) = 1 /\
+    f_length (sg_bytes (first_seg r)) = 2 /\ len (sg_bytes (first_seg r)) = 65538 /\
+    (* the current code refuses *)
+    snd (write ex_conn false None ex_env v) = mkWR [] 0 ErrMessageTooLong false.
+Proof.
+  exists (repeat 7 (Z.to_nat 65530)). split; [|split].
+  - apply Forall_forall. intros x Hx. apply repeat_spec in Hx. subst x. unfold is_byte. lia.
+  - unfold len. rewrite repeat_length. lia.
+  - cbv zeta. repeat split; vm_compute; reflexivity.
+Qed.
+
+(* ---- checksum zero ---- *)
+(* RFC 768: "If the computed checksum is zero, it is transmitted as all ones".  sendUDP stores the
+   complement as computed: when the one's-complement sum is 0xffff the field goes out as 0, which an
+   IPv4 receiver reads as "no checksum" and an IPv6 receiver must discard (RFC 2460 8.1).  The
+   segment still sums to 0xffff, so it "verifies" in the sense of the theorem above. *)
+Lemma write_checksum_zero_possible :
+  exists v, bytes_ok v /\
+    exists sg, w_emitted (snd (write ex_conn false None ex_env v)) = [sg] /\
+               f_checksum (sg_bytes sg) = 0 /\
+               rfc1071_sum (pseudo4 (sg_src sg) (sg_dst sg) (sg_bytes sg)) 0 = 65535.
+Proof.
+  exists [79; 98]. split; [apply bytes_okb_ok; reflexivity|].
+  eexists. split; [vm_compute; reflexivity|]. split; vm_compute; reflexivity.
+Qed.
